@@ -421,7 +421,7 @@ def failure_props(f):
 
 
 def code_props(code):
-    table = {212: ['C02', 'C10', 'C03'], 1607: ['C16', 'C04', 'C07'], 1320: ['C13', 'C07'], 1321: ['C13', 'C02'], 1803: ['C18', 'C07', 'C14'], 903: ['C09', 'C04', 'C14'], 209: ['C02', 'C17'], 1302: ['C13', 'C08'], 1307: ['C13', 'C06'], 1313: ['C13', 'C11'], 1315: ['C13', 'C11'], 1103: ['C11', 'C13'],
+    table = {1330: ['C13', 'C07', 'C08'], 1331: ['C13', 'C02'], 1332: ['C14'], 1333: ['C14'], 1334: ['C13', 'C06'], 212: ['C02', 'C10', 'C03'], 1607: ['C16', 'C04', 'C07'], 1320: ['C13', 'C07'], 1321: ['C13', 'C02'], 1803: ['C18', 'C07', 'C14'], 903: ['C09', 'C04', 'C14'], 209: ['C02', 'C17'], 1302: ['C13', 'C08'], 1307: ['C13', 'C06'], 1313: ['C13', 'C11'], 1315: ['C13', 'C11'], 1103: ['C11', 'C13'],
              602: ['C06', 'C05'], 603: ['C06', 'C05'], 901: ['C09', 'C15'], 1104: ['C11'], 1105: ['C11'],
              1203: ['C12', 'C14'], 1204: ['C12', 'C14'],
              611: ['C06', 'C09'], 612: ['C06', 'C05'], 631: ['C06', 'C05', 'C13'], 632: ['C06', 'C05'], 633: ['C05', 'C06'],
@@ -458,6 +458,11 @@ CODE_TEXT = {
     212: 'an RPC the server refused ended at the caller with a result other than the status of the close frame handed to its endpoint',
     1404: 'the client stream table still holds an entry for an RPC whose caller has been given a status as its terminal result (raw tunnel server)',
     1607: 'the caller of a method with a non-streaming response was told success although no close_stream had been handed to its endpoint',
+    1330: 'replay of the per-RPC model (Rpc.v) on the operations of the trace: the frames the tunnel client emitted on the stream differ from the model history h_c',
+    1331: 'replay of the per-RPC model: the frames the tunnel server emitted on the stream differ from the model history h_s',
+    1332: 'replay of the per-RPC model: the client stream table size differs from the model (a = model, b = observed)',
+    1333: 'replay of the per-RPC model: the server stream table size differs from the model (a = model, b = observed)',
+    1334: 'a window update was emitted by an endpoint whose per-RPC model forbids it (the stream was finished there)',
     1320: 'the frames the tunnel client emitted on a stream leave the grammar of the per-RPC model (Rpc.v gc_step): frame before new_stream, second new_stream, request data after half-close, second half-close or second cancel',
     1321: 'the frames the tunnel server emitted on a stream leave the grammar of the per-RPC model (Rpc.v gs_step): message before headers, headers twice, second close_stream or a frame other than a late window update after close_stream',
     1301: 'settings not first / wrong stream id', 1302: 'frame before new_stream or stream ids not increasing', 1303: 'headers twice or after a message',
@@ -559,6 +564,9 @@ def run_sim(family, seed, count, scenario_file=None, keep_trace=False):
         return res
     for line in mo.splitlines():
         f = line.split(' ')
+        if len(f) == 3 and f[0] == 'J':
+            res['rpcs_replayed_on_model'] = res.get('rpcs_replayed_on_model', 0) + int(f[2])
+            continue
         if len(f) < 4 or f[0] != 'T':
             continue
         res['scenarios'] += 1
@@ -803,6 +811,10 @@ class Verdict:
         d = self.cov['distribution'].setdefault('sim:' + r['family'], {'scenarios': 0, 'events': 0, 'actions': {}, 'configs': {}})
         d['scenarios'] += r['scenarios']
         d['events'] += r['events']
+        if r.get('rpcs_replayed_on_model'):
+            # RPCs whose whole life was replayed in lock-step on the per-RPC model (Rpc.v) by mon_rpcrun
+            d['rpcs_replayed_on_model'] = d.get('rpcs_replayed_on_model', 0) + r['rpcs_replayed_on_model']
+            self.cov['rpcs_replayed_on_model'] = self.cov.get('rpcs_replayed_on_model', 0) + r['rpcs_replayed_on_model']
         for k, n in r.get('actions', {}).items():
             d['actions'][k] = d['actions'].get(k, 0) + n
         for k, n in r.get('configs', {}).items():
